@@ -114,6 +114,16 @@ hwloc_synthetic_process_indexes(struct hwloc_synthetic_backend_data_s *data,
 	attr = next;
       }
     }
+    /* two objects of a level cannot have the same index */
+    for(i=1; i<total; i++) {
+      size_t j;
+      for(j=0; j<i; j++)
+	if (array[i] == array[j]) {
+	  if (verbose)
+	    fprintf(stderr, "Duplicate synthetic index %u at positions #%lu and #%lu\n", array[i], (unsigned long) j, (unsigned long) i);
+	  goto out_with_array;
+	}
+    }
     indexes->array = array;
 
   } else {
